@@ -7,7 +7,9 @@
 // components, matches canonical paths with `#maximal text runs + sum k_i` components.
 use super::*;
 use crate::token::variance::invariant::{Finalize, SeparatedTerm, Termination};
-use crate::token::variance::natural::verif_kani_natural::{mem, mem_nr};
+// re-exported for units outside `token` (the `variance` module is private to `token`)
+pub(crate) use crate::token::variance::natural::verif_kani_natural as vnat;
+use vnat::{mem, mem_nr};
 use crate::token::variance::{self, TokenVariance, Variance};
 use crate::verif_prelude::*;
 
@@ -269,6 +271,314 @@ fn ob_c10_seq_len4_inner_right(ks: [u8; 4], ms: [usize; 4]) {
 //@ post: #text runs + sum k_i is in the finalised conjunction
 fn ob_c10_seq_len4_inner_left(ks: [u8; 4], ms: [usize; 4]) {
     seq4(ks, ms, 4)
+}
+
+// ---------------------------------------------------------------------------------------------
+// C10: repetition at term level
+// ---------------------------------------------------------------------------------------------
+
+//@ob C10.sep.product
+//@ props: C10
+//@ kind: bounded(repetition bounds enumerated via from_closed_and_open(lo <= 3, hi <= 3 or open); termination and variance of the body symbolic, bounds <= 2^40)
+//@ fns: src/token/variance/invariant/term.rs::SeparatedTerm::product src/token/mod.rs::Repetition::finalize<Depth> src/token/mod.rs::Repetition::variance
+//@ pre: any separated depth term (termination t, variance v), any enumerated repetition range r
+//@ post: the real Repetition::finalize on a real BranchKind::Repetition (Box child) keeps the termination and multiplies the variance: result = SeparatedTerm(t, v x r)
+fn ob_c10_sep_product(t: u8, k: u8, a: usize, b: usize, lo: u8, hi: u8, x: usize) {
+    use vnat::{mk_tv, valid_tv};
+    vassume!(t <= 4 && k <= 4 && valid_tv(k, a, b) && lo <= 3 && hi <= 4 && hi >= 1 && (hi == 4 || lo <= hi));
+    vassume!(a <= 1usize << 40 && b <= 1usize << 40);
+    let termination = mk_termination(t);
+    let v: TV = mk_tv(k, a, b);
+    let rep = mk_repetition(lo as usize, if hi == 4 { None } else { Some(hi as usize) });
+    let term: InvariantTerm<Depth> = Composition::Conjunctive(SeparatedTerm(termination, v));
+    vcover!(k == 4 && lo == 2 && hi == 3);
+    let out = variance::finalize::<Depth>(&rep, term);
+    core::mem::forget(rep);
+    let expected = ops::product(v, NaturalRange::from_closed_and_open(lo as usize, if hi == 4 { None } else { Some(hi as usize) }));
+    match out {
+        Composition::Conjunctive(SeparatedTerm(t2, v2)) => {
+            assert!(t2 == termination, "C10 a repetition keeps the termination of its body");
+            assert!(mem(&v2, x as u128) == mem(&expected, x as u128), "C10 a repetition multiplies the depth variance of its body");
+        },
+        Composition::Disjunctive(d) => {
+            core::mem::forget(d);
+            assert!(false, "C10 product of a conjunctive term is conjunctive")
+        },
+    }
+}
+
+// the variance of a conjunctive term; a disjunctive term (HashSet) is forgotten, not dropped
+fn unwrap_conjunctive(t: InvariantTerm<Depth>) -> TV {
+    match t {
+        Composition::Conjunctive(SeparatedTerm(_, v)) => v,
+        Composition::Disjunctive(d) => {
+            core::mem::forget(d);
+            panic!("C09/C10 the term of a conjunctive body is conjunctive")
+        },
+    }
+}
+fn mk_termination(t: u8) -> Termination {
+    match t {
+        0 => Termination::Open,
+        1 => Termination::First,
+        2 => Termination::Last,
+        3 => Termination::Closed,
+        _ => Termination::Coalescent,
+    }
+}
+fn mk_repetition(lower: usize, upper: Option<usize>) -> BranchKind<'static, ()> {
+    BranchKind::Repetition(Repetition { token: Box::new(Token::new(leaf(5), ())), lower, upper })
+}
+
+// ---------------------------------------------------------------------------------------------
+// C09: term-level kernels of the exhaustiveness verdict
+// ---------------------------------------------------------------------------------------------
+
+//@ob C09.inv.is_exhaustive
+//@ props: C09 C05
+//@ kind: complete
+//@ fns: src/token/variance/invariant/mod.rs::TokenVariance<Depth>::is_exhaustive src/token/variance/invariant/mod.rs::BoundaryTerm<Depth>::is_exhaustive src/token/variance/mod.rs::Variance::has_upper_bound src/token/variance/mod.rs::Variance::is_unbounded src/token/variance/mod.rs::Variance::is_bounded
+//@ pre: any well-formed depth variance v; naturals x <= y
+//@ post: is_exhaustive(v) => the matched depths are upward closed (x in gamma(v) => y in gamma(v)) -- a descendant of a match is never excluded by depth; not is_exhaustive(v) => gamma(v) is bounded above (some deeper descendant is excluded). The BoundaryTerm verdict of a conjunctive term is Always / Never accordingly, never Sometimes. is_unbounded / is_bounded agree with gamma = N
+fn ob_c09_inv_is_exhaustive(k: u8, a: usize, b: usize, t: u8, x: usize, y: usize) {
+    use vnat::{mk_tv, valid_tv};
+    vassume!(k <= 4 && t <= 4 && valid_tv(k, a, b) && x <= y);
+    let v: TV = mk_tv(k, a, b);
+    let r = v.is_exhaustive();
+    vcover!(r && k == 2);
+    vcover!(!r && k == 4);
+    if r {
+        assert!(!mem(&v, x as u128) || mem(&v, y as u128), "C09 an exhaustive depth variance is upward closed");
+    }
+    else {
+        let top: u128 = match k {
+            0 | 3 => a as u128,
+            _ => a as u128 + b as u128,
+        };
+        assert!(k == 0 || k == 3 || k == 4, "C09 a depth variance without an upper bound is exhaustive");
+        assert!(!mem(&v, y as u128) || y as u128 <= top, "C09 a non-exhaustive depth variance is bounded above");
+    }
+    assert!(v.is_unbounded() == (k == 1) && v.is_bounded() == (k != 1));
+    let term: BoundaryTerm<Depth> = Composition::Conjunctive(SeparatedTerm(mk_termination(t), v));
+    let w = term.is_exhaustive();
+    assert!(w.is_always() == r && w.is_never() == !r, "C09 the verdict of a conjunctive term is definite");
+}
+
+//@ob C09.exh.finalize.repetition-stride
+//@ props: C09 C05
+//@ kind: complete
+//@ fns: src/token/variance/mod.rs::TreeExhaustiveness::finalize
+//@ pre: a real BranchKind::Repetition (Box child) with ANY bounds (lower: usize, upper: Option<usize>), a conjunctive body term with any termination and an invariant depth n >= 2 (all of usize)
+//@ post: the finalised term is not exhaustive whatever the bounds -- a repetition whose body spans n >= 2 components only matches depths k*n (`<*/*/>`), so an unbounded repetition of it must not become an always-exhaustive verdict
+fn ob_c09_exh_finalize_repetition_stride(t: u8, n: usize, lower: usize, has_upper: bool, upper: usize) {
+    vassume!(t <= 4 && n >= 2);
+    let rep = mk_repetition(lower, if has_upper { Some(upper) } else { None });
+    let v: TV = Variance::Invariant(Depth::new(n));
+    let term: InvariantTerm<Depth> = Composition::Conjunctive(SeparatedTerm(mk_termination(t), v));
+    vcover!(!has_upper && lower == 0);
+    vcover!(has_upper && lower < upper);
+    let mut fold = variance::TreeExhaustiveness;
+    let out = crate::token::walk::Fold::<()>::finalize(&mut fold, &rep, term);
+    core::mem::forget(rep); // no drop glue of the recursive token type in the goto program
+    let v2 = unwrap_conjunctive(out);
+    assert!(!v2.is_exhaustive(), "C09 a repetition of a body that spans two or more components is never always-exhaustive");
+}
+
+//@ob C09.exh.finalize.repetition-unit
+//@ props: C09 C05
+//@ kind: bounded(repetition bounds enumerated: lower <= 3, upper <= 3 or open)
+//@ fns: src/token/variance/mod.rs::TreeExhaustiveness::finalize src/token/mod.rs::Repetition::finalize<Depth>
+//@ pre: a real BranchKind::Repetition with enumerated bounds, a conjunctive body term with invariant depth 0 or 1, or an unbounded / lower-bounded variant depth
+//@ post: the verdict of the finalised term is that of the depth product v x r (unit-stride bodies: `<*/>` is exhaustive exactly when the repetition is unbounded above; zero-depth bodies never are; an unbounded body stays unbounded unless the repetition can be empty-only)
+fn ob_c09_exh_finalize_repetition_unit(t: u8, k: u8, l: usize, lo: u8, hi: u8) {
+    vassume!(t <= 4 && k <= 3 && lo <= 3 && hi <= 4 && hi >= 1 && (hi == 4 || lo <= hi) && l >= 1 && l <= 1usize << 40);
+    let upper = if hi == 4 { None } else { Some(hi as usize) };
+    let rep = mk_repetition(lo as usize, upper);
+    let v: TV = match k {
+        0 => Variance::Invariant(Depth::new(0)),
+        1 => Variance::Invariant(Depth::new(1)),
+        2 => Variance::Variant(Boundedness::Unbounded),
+        _ => Variance::Variant(Boundedness::Bounded(BoundedVariantRange::Lower(core::num::NonZeroUsize::new(l).unwrap()))),
+    };
+    let term: InvariantTerm<Depth> = Composition::Conjunctive(SeparatedTerm(mk_termination(t), v));
+    vcover!(k == 1 && hi == 4);
+    vcover!(k == 1 && hi == 3);
+    let mut fold = variance::TreeExhaustiveness;
+    let out = crate::token::walk::Fold::<()>::finalize(&mut fold, &rep, term);
+    core::mem::forget(rep);
+    let v2 = unwrap_conjunctive(out);
+    let expected = ops::product(v, NaturalRange::from_closed_and_open(lo as usize, upper));
+    assert!(v2.is_exhaustive() == expected.is_exhaustive(), "C09 unit-stride repetitions use the depth product");
+    if k == 1 {
+        assert!(v2.is_exhaustive() == (hi == 4), "C09 `<*/>`-like repetitions are exhaustive exactly when unbounded above");
+    }
+    if k == 0 {
+        assert!(!v2.is_exhaustive(), "C09 a body without components is never exhaustive");
+    }
+}
+
+//@ob C09.leaf.sequencer-predicate
+//@ props: C09 C11 C05
+//@ kind: complete
+//@ fns: src/token/mod.rs::Wildcard::term<Breadth> src/token/mod.rs::Literal::term<Breadth> src/token/mod.rs::Class::term<Breadth> src/token/mod.rs::Separator::term<Breadth> src/token/mod.rs::Wildcard::term<Text> src/token/mod.rs::LeafKind::boundary
+//@ pre: any leaf kind (all eight enumerated)
+//@ post: breadth is unbounded exactly for `*`, `$` and `**` (not for `?`, literals, classes, separators); text is unbounded for every wildcard and bounded or invariant for every other leaf: so "unbounded breadth and unbounded text" -- the test the exhaustiveness sequencer applies -- singles out exactly the leaves that can absorb arbitrary further text
+fn ob_c09_leaf_sequencer_predicate(k: u8) {
+    vassume!(k < KINDS);
+    let (breadth_unbounded, text_unbounded) = match k {
+        0 => (variance::term::<Breadth>(&leaf(0)).is_unbounded(), variance::term::<Text>(&leaf(0)).is_unbounded()),
+        1 => (variance::term::<Breadth>(&leaf(1)).is_unbounded(), variance::term::<Text>(&leaf(1)).is_unbounded()),
+        2 => (variance::term::<Breadth>(&leaf(2)).is_unbounded(), variance::term::<Text>(&leaf(2)).is_unbounded()),
+        3 => (variance::term::<Breadth>(&leaf(3)).is_unbounded(), variance::term::<Text>(&leaf(3)).is_unbounded()),
+        4 => (variance::term::<Breadth>(&leaf(4)).is_unbounded(), variance::term::<Text>(&leaf(4)).is_unbounded()),
+        5 => (variance::term::<Breadth>(&leaf(5)).is_unbounded(), variance::term::<Text>(&leaf(5)).is_unbounded()),
+        6 => (variance::term::<Breadth>(&leaf(6)).is_unbounded(), variance::term::<Text>(&leaf(6)).is_unbounded()),
+        _ => (variance::term::<Breadth>(&leaf(7)).is_unbounded(), variance::term::<Text>(&leaf(7)).is_unbounded()),
+    };
+    vcover!(k == 2);
+    vcover!(k == 1);
+    assert!(breadth_unbounded == matches!(k, 2 | 3 | 6 | 7), "C09 breadth is unbounded exactly for `*`, `$` and tree wildcards");
+    assert!(text_unbounded == matches!(k, 1 | 2 | 3 | 6 | 7), "C09/C11 text is unbounded exactly for wildcards");
+}
+
+// ---------------------------------------------------------------------------------------------
+// C11: sources of text variance at the leaves
+// ---------------------------------------------------------------------------------------------
+
+//@ob C11.leaf.class
+//@ props: C11 C05
+//@ kind: complete
+//@ fns: src/token/mod.rs::Class::term<Text> src/token/mod.rs::Archetype::term<Text>
+//@ pre: a negated class; a range archetype with any two distinct end points (all char x char)
+//@ post: both report variant text (a negated class and a range of more than one character match two different paths)
+fn ob_c11_leaf_class(a: char, b: char) {
+    let negated = Class { is_negated: true, archetypes: Vec::new() };
+    assert!(VarianceTerm::<Text>::term(&negated).is_variant(), "C11 a negated class is variant");
+    vassume!(a != b);
+    vcover!(a > b);
+    let range = Archetype::Range(a, b);
+    assert!(VarianceTerm::<Text>::term(&range).is_variant(), "C11 a range of more than one character is variant");
+}
+
+//@ob C11.literal.casing
+//@ props: C11 C05
+//@ kind: bounded(literals of one or two ASCII characters; the case flag symbolic)
+//@ unwind: 6
+//@ fns: src/token/mod.rs::Literal::variance src/token/mod.rs::Literal::has_variant_casing src/lib.rs::StrExt::has_casing src/lib.rs::CharExt::has_casing
+//@ pre: any literal of 1..=2 ASCII characters, any case flag
+//@ post: the literal reports variant text <=> its case sensitivity differs from the platform's and it contains a letter: a literal with casing under a case-insensitive flag on a case-sensitive platform is variant, everything else is invariant over its own text
+fn ob_c11_literal_casing(n: u8, b1: u8, b2: u8, flag: bool) {
+    vassume!(n >= 1 && n <= 2 && b1 < 128 && b2 < 128);
+    let buf = [b1, b2];
+    // SAFETY: ASCII bytes are valid UTF-8.
+    let text = unsafe { core::str::from_utf8_unchecked(&buf[..n as usize]) };
+    let literal = Literal { text: Cow::Borrowed(text), is_case_insensitive: flag };
+    let has_letter = (b1 as char).is_ascii_alphabetic() || (n == 2 && (b2 as char).is_ascii_alphabetic());
+    vcover!(flag && has_letter && n == 2 && !(b1 as char).is_ascii_alphabetic());
+    vcover!(flag && !has_letter);
+    let expected = (PATHS_ARE_CASE_INSENSITIVE != flag) && has_letter;
+    assert!(literal.has_variant_casing() == expected, "C11 casing under a mismatching case flag is variance");
+    match literal.variance() {
+        Variance::Variant(_) => assert!(expected, "C11 variant only for variant casing"),
+        Variance::Invariant(t) => {
+            assert!(!expected, "C11 a cased literal under a mismatching flag never reports invariant text");
+            assert!(t.as_ref().as_ptr() == text.as_ptr() && t.len() == n as usize, "C11 the invariant text of a literal is its own text");
+        },
+    }
+}
+
+// ---------------------------------------------------------------------------------------------
+// C12: rooting classification of leaves
+// ---------------------------------------------------------------------------------------------
+
+//@ob C12.leaf.is_rooting
+//@ props: C12 C05
+//@ kind: complete
+//@ fns: src/token/mod.rs::LeafKind::is_rooting src/token/mod.rs::LeafKind::boundary src/token/mod.rs::LeafKind::is_capturing
+//@ pre: any leaf kind (all eight enumerated)
+//@ post: is_rooting <=> the leaf is a separator or a rooted tree wildcard -- exactly the leaves whose language consists of strings that begin with `/`; boundary() is Separator for a separator, Component for a tree wildcard, None otherwise; exactly classes and wildcards capture
+fn ob_c12_leaf_is_rooting(k: u8) {
+    vassume!(k < KINDS);
+    let l = leaf(k);
+    vcover!(k == 7);
+    vcover!(k == 6);
+    assert!(l.is_rooting() == (k == 5 || k == 7), "C12 only a separator and a rooted tree wildcard root a pattern");
+    match l.boundary() {
+        Some(Boundary::Separator) => assert!(k == 5, "C12 separator boundary"),
+        Some(Boundary::Component) => assert!(k == 6 || k == 7, "C12 component boundary"),
+        None => assert!(class_of(k) == 0, "C12 text leaves are not boundaries"),
+    }
+    assert!(l.is_capturing() == matches!(k, 1 | 2 | 3 | 4 | 6 | 7), "C04/C12 classes and wildcards capture");
+}
+
+// ---------------------------------------------------------------------------------------------
+// C17: un-rooting a tree wildcard moves its span past the separator
+// ---------------------------------------------------------------------------------------------
+
+//@ob C17.unroot
+//@ props: C17 C08 C05
+//@ kind: complete
+//@ fns: src/token/mod.rs::Wildcard::unroot src/token/mod.rs::Wildcard::unroot<Span> src/token/mod.rs::LeafKind::unroot
+//@ pre: any leaf kind with a span (s, n) inside an expression of length <= isize::MAX; a rooted tree wildcard's span covers at least its leading `/` (n >= 1)
+//@ post: a rooted tree wildcard returns 1, is no longer rooted, and its span becomes (s + 1, n - 1): still inside the old span, same end, excluding exactly the leading `/`; every other leaf returns 0 and nothing changes
+fn ob_c17_unroot(k: u8, s: usize, n: usize) {
+    vassume!(k < KINDS);
+    vassume!(s <= isize::MAX as usize && n <= isize::MAX as usize - s);
+    vassume!(k != 7 || n >= 1);
+    let mut l = leaf(k);
+    let mut span: Span = (s, n);
+    vcover!(k == 7);
+    vcover!(k == 6);
+    let moved: usize = Unroot::unroot(&mut l, &mut span);
+    if k == 7 {
+        assert!(moved == ROOT_SEPARATOR_EXPRESSION.len() && moved == 1, "C17 un-rooting reports the length of the separator");
+        assert!(matches!(l, LeafKind::Wildcard(Wildcard::Tree { has_root: false })), "C08 the postfix is never rooted");
+        assert!(span == (s + 1, n - 1), "C17 the span excludes exactly the leading separator");
+        assert!(span.0 + span.1 == s + n, "C17 the span keeps its end");
+    }
+    else {
+        assert!(moved == 0 && span == (s, n), "C17 other leaves are untouched");
+        assert!(l.is_rooting() == (k == 5));
+    }
+}
+
+// ---------------------------------------------------------------------------------------------
+// C19: ownership conversions of leaves
+// ---------------------------------------------------------------------------------------------
+
+//@ob C19.owned.leaf
+//@ props: C19 C05
+//@ kind: bounded(literal text of 0..=2 ASCII bytes; all leaf kinds, case flag symbolic)
+//@ unwind: 6
+//@ fns: src/token/mod.rs::LeafKind::into_owned src/token/mod.rs::Literal::into_owned
+//@ pre: any leaf kind; for a literal any text of up to 2 ASCII bytes and any case flag
+//@ post: into_owned keeps the kind, the wildcard variant, the literal's text bytes and its case flag
+fn ob_c19_owned_leaf(k: u8, n: u8, b1: u8, b2: u8, flag: bool) {
+    vassume!(k < KINDS && n <= 2 && b1 < 128 && b2 < 128);
+    let buf = [b1, b2];
+    // SAFETY: ASCII bytes are valid UTF-8.
+    let text = unsafe { core::str::from_utf8_unchecked(&buf[..n as usize]) };
+    let l = if k == 0 { LeafKind::Literal(Literal { text: Cow::Borrowed(text), is_case_insensitive: flag }) } else { leaf(k) };
+    vcover!(k == 0 && n == 2 && flag);
+    vcover!(k == 7);
+    let owned: LeafKind<'static> = l.into_owned();
+    match owned {
+        LeafKind::Literal(lit) => {
+            assert!(k == 0, "C19 kind preserved");
+            assert!(lit.is_case_insensitive() == flag, "C19 case flag preserved");
+            let t = lit.text().as_bytes();
+            assert!(t.len() == n as usize, "C19 text length preserved");
+            assert!(n < 1 || t[0] == b1, "C19 text preserved");
+            assert!(n < 2 || t[1] == b2, "C19 text preserved");
+            assert!(matches!(lit.text, Cow::Owned(_)), "C19 the owned literal owns its text");
+        },
+        LeafKind::Wildcard(Wildcard::One) => assert!(k == 1, "C19 kind preserved"),
+        LeafKind::Wildcard(Wildcard::ZeroOrMore(Evaluation::Eager)) => assert!(k == 2, "C19 kind preserved"),
+        LeafKind::Wildcard(Wildcard::ZeroOrMore(Evaluation::Lazy)) => assert!(k == 3, "C19 kind preserved"),
+        LeafKind::Class(c) => assert!(k == 4 && !c.is_negated() && c.archetypes().is_empty(), "C19 kind preserved"),
+        LeafKind::Separator(_) => assert!(k == 5, "C19 kind preserved"),
+        LeafKind::Wildcard(Wildcard::Tree { has_root }) => assert!((k == 6 && !has_root) || (k == 7 && has_root), "C19 rootedness preserved"),
+    }
 }
 
 //@ob C10.token.canary
